@@ -8,6 +8,7 @@ from scipy.linalg import norm
 
 # Local Imports
 from ..bodies import Earth
+from ..constants import PI
 from ..maths import fpe_equals, rot1, rot3
 from . import isEccentric, isInclined, wrapAngleHalfOpen
 from .anomaly import eccLong2MeanLong, meanLong2EccLong, meanLong2TrueAnom, trueAnom2MeanLong
@@ -127,8 +128,12 @@ def eci2coe(eci_state: ndarray, mu: float = Earth.mu) -> OrbitalElementTuple:
         raan, argp, true_anomaly = (wrapAngleHalfOpen(ang) for ang in (raan, argp, true_anomaly))
         return sma, ecc, inc, raan, argp, true_anomaly
 
+    # Equatorial retrograde orbits: longitudes are measured along the motion (clockwise seen
+    #   from +z), which is what `coe2eci()` (rot1(-pi)) and the retrograde EQEs assume
+    retro_sign = -1.0 if inc > 0.5 * PI else 1.0
+
     if not inclined and eccentric:
-        true_long_periapsis = wrapAngleHalfOpen(getTrueLongitudePeriapsis(ecc_vec))
+        true_long_periapsis = wrapAngleHalfOpen(retro_sign * getTrueLongitudePeriapsis(ecc_vec))
         true_anomaly = getTrueAnomaly(pos_vec, vel_vec, ecc_vec)
         # RAAN, Ω, is undefined
         return sma, ecc, inc, 0.0, true_long_periapsis, wrapAngleHalfOpen(true_anomaly)
@@ -140,7 +145,7 @@ def eci2coe(eci_state: ndarray, mu: float = Earth.mu) -> OrbitalElementTuple:
         return sma, ecc, inc, wrapAngleHalfOpen(raan), 0.0, wrapAngleHalfOpen(arg_lat)
 
     # else:  # Circular and Equatorial
-    true_longitude = wrapAngleHalfOpen(getTrueLongitude(pos_vec))
+    true_longitude = wrapAngleHalfOpen(retro_sign * getTrueLongitude(pos_vec))
     # RAAN, Ω, and Arg. Perigee, ω, are undefined
     return sma, ecc, inc, 0.0, 0.0, true_longitude
 
